@@ -742,6 +742,58 @@ def gen_date0(rng):
     return sc
 
 
+def gen_dead3(rng):
+    """three nodes: a circular wait between multi-server nodes that is NOT a deadlock while one server still works,
+    next to a node that can deadlock on its own (self-loop): knots among several strongly connected components"""
+    c1, c2 = rng.choice([(2, 1), (2, 2), (1, 2), (3, 1)])
+    sc = {"N": 3, "K": 1,
+          "nodes": [{"c": c1, "qcap": 0}, {"c": c2, "qcap": 0}, {"c": 1, "qcap": rng.choice([0, 0, 1])}],
+          "arrS": [[samples(rng, 1, 3, 2)], [samples(rng, 1, 3, 2)], [samples(rng, 2, 5, 2)]],
+          "svcS": [[samples(rng, 1, 6, 3)], [samples(rng, 1, 6, 3)], [samples(rng, 1, 4, 2)]],
+          "route": [tm([[0, rng.choice([2, 3, 4]), 0], [rng.choice([2, 3, 4]), 0, 0], [0, 0, rng.choice([1, 2, 3])]])],
+          "stop": "deadlock", "detector": "digraph", "T": INF, "tracker": rng.choice(["naive", "matrix", "node"])}
+    return sc
+
+
+def gen_jsqsched(rng):
+    """join-shortest-queue / load balancing towards scheduled, slotted and ordinary nodes: the waiting line of a node
+    with overtime servers, zero-server shifts or slots is not (population - current number of servers)"""
+    N = 3
+    K = 1
+    sc = gen_tandem(rng, N=N, K=K)
+    sc["syscap"] = INF
+    sc["nodes"][0] = {"c": INF, "qcap": INF}
+    for n in (1, 2):
+        nd = {"qcap": INF, "c": rng.choice([1, 2])}
+        r = rng.random()
+        if r < 0.5:
+            nd["kind"] = "sched"
+            nd["c"] = 0
+            m = rng.randint(2, 3)
+            ends, t = [], 0
+            for _ in range(m):
+                t += rng.randint(2, 6)
+                ends.append(t)
+            nd["sched"] = {"nums": [rng.choice([0, 1, 2, 3]) for _ in range(m)], "ends": ends,
+                           "pre": rng.choice([0, 0, 0, 1, 2]), "off": 0}
+            if not any(nd["sched"]["nums"]):
+                nd["sched"]["nums"][0] = 2
+        elif r < 0.65:
+            nd["kind"] = "slot"
+            nd["c"] = 0
+            nd["slot"] = {"slots": [rng.randint(2, 4)], "sizes": [rng.choice([1, 2, 3])], "cap": False, "pre": 0, "off": 0}
+        sc["nodes"][n] = nd
+    kind = rng.choice(["jsq", "jsq", "lb"])
+    routers = [{"t": kind, "dests": rng.choice([[2, 3], [3, 2]]), "tie": rng.choice(["order", "random"])},
+               {"t": "leave"}, {"t": "leave"}]
+    sc["route"] = [{"kind": "nr", "routers": routers}]
+    sc["arrS"] = [[samples(rng, 1, 2, 2)], [[]], [[]]]
+    sc["svcS"] = [[[0, 1]], [samples(rng, 2, 7, 2)], [samples(rng, 2, 7, 2)]]
+    sc.pop("batchS", None)
+    sc["T"] = rng.randint(15, 35)
+    return sc
+
+
 def gen_stopcount(rng):
     base = rng.choice([gen_core1, gen_tandem, gen_prio, gen_renege, gen_cls])
     sc = base(rng)
@@ -780,6 +832,8 @@ def gen_stopcount(rng):
 FAMILIES = {
     "stopcount": gen_stopcount,
     "trk": gen_trk,
+    "dead3": gen_dead3,
+    "jsqsched": gen_jsqsched,
     "date0": gen_date0,
     "pause": gen_pause,
     "infblock": gen_infblock,
